@@ -72,6 +72,15 @@ CHECKS = {
         "note": "Trusted: Python ast, E1 resolver, numpy slicing / np.sum semantics.",
         "technique": "static analysis: abstract evaluation + normalised guard/bounds comparison; traversal typestate; must-raise; view wiring rule",
     },
+    "C08": {
+        "text": "Decides, for every dataset / mask / model: each of the 21 fit_util functions equals its definition as a canonical form (data - model, (r/n)^2, sum log(2 pi n^2), -(chi2+norm)/2, residual/data, "
+                "evidence polarities -1/2(chi2 + sHs + logdet(F+H) - logdet(H) + norm)); every _with_mask_ variant restricts EVERY array operand by mask == 0 (where= + zero out=, or boolean selection) so masked values cannot reach a sum; "
+                "each property of AbstractFit / FitDataset / FitInterferometer is wired to the util of the same name with same-named arguments, masked variant exactly under use_mask_in_fit with mask=self.mask, both modes present; "
+                "figure of merit = evidence iff `inversion is not None`; the regularization term and both log-determinants are formed from the *_reduced quantities, which drop exactly the no-regularization rows and columns; "
+                "signal_to_noise_map clips negatives on a fresh array only. Not decided: floating-point accuracy of determinants and sums.",
+        "note": "Trusted: Python ast, E1 resolver, numpy ufunc where=/out= and boolean-mask selection semantics.",
+        "technique": "static analysis: polynomial-normal-form evaluation of the definitions + canonical-form equality; definition-wiring rule over resolved calls and keyword bindings; branch-guard rule",
+    },
 }
 
 NOT_APPLICABLE = {f"C{n:02d}": PENDING for n in range(1, 21) if f"C{n:02d}" not in CHECKS}
